@@ -1,3 +1,35 @@
-(* Prop_C13.v — placeholder until the proof file exists *)
-From HL Require Import Base Model Shape Algo Api Check Monitors.
-Theorem C13_try_exact : True. Proof. exact I. Qed.
+(* Prop_C13.v — C13: try_* outcomes are exact in quiescent states.
+   For EVERY scenario "get the key; try_lock / try_read collection c; drop the guard" over any acquirable
+   shape (single lock, any collection kind, any nesting, any size, any address arrangement, any
+   Poisonable wrapping) with duplicate-free leaves and any pre-existing holds of other threads, the
+   model's observation satisfies the monitor: Ok iff every leaf is free (try_lock) / not write-held
+   (try_read) — independently of kind, arrangement and nesting —, a refusal leaves the hold table as it
+   was, success holds every leaf and dropping the guard restores the table. *)
+From HL Require Import Base Model Shape Algo Api Lemmas ShapeLemmas Check Monitors Pf_C13.
+
+Theorem C13_try_exact :
+  forall sc c m s t, wf_C13 sc c m s t -> mon_C13 sc (model_obs sc) = true.
+Proof. exact C13_main. Qed.
+
+Check C13_try_exact :
+  forall sc c m s t, wf_C13 sc c m s t -> mon_C13 sc (model_obs sc) = true.
+
+(* non-vacuity: a nested scenario with a contended leaf meets the hypotheses *)
+Definition ex13_shape : shape :=
+  SBoxed (SSeq [SLeaf KRw 2; SRetry (SSeq [SLeaf KRw 0; SPoison 0 (SLeaf KRw 1)])]).
+Definition ex13 : scen :=
+  mks 3 1 [2; 0; 1] [] [ex13_shape] [(1, mkraw None [100; 101])] [] [] 4
+      [(0, AKeyGet); (0, AAcquire 0 Sh FTry); (0, AGuardDrop)].
+
+Example C13_nonvacuous : wf_C13 ex13 0 Sh ex13_shape 0.
+Proof.
+  constructor; try reflexivity.
+  - repeat constructor; simpl; intuition discriminate.
+  - simpl. intros l [H|[H|[H|[]]]]; subst; auto.
+  - simpl. intros _ k l [H|[H|[H|[]]]]; inversion H; reflexivity.
+Qed.
+
+Example C13_example_runs : mon_C13 ex13 (model_obs ex13) = true.
+Proof. vm_compute. reflexivity. Qed.
+
+Print Assumptions C13_try_exact.
